@@ -339,3 +339,42 @@ func calleeNameOf(p *packages.Package, c *ast.CallExpr) string {
 	}
 	return ""
 }
+
+// blockingOps: a run-time closure that blocks on a channel must race the frame's done channel.
+// Plain reflect.Value.Recv / Send closures are chosen when the generator runs (n.interp.cancelChan
+// is read at generation time), so a function compiled by a plain Eval blocks uninterruptibly.
+func (r *Run) blockingOps() {
+	p := r.L.ByName["interp"]
+	for _, gen := range []string{"recv", "recv2", "send", "rangeChan", "_select"} {
+		fd := r.L.FindFunc(p, gen)
+		if fd == nil {
+			r.engineError("generator %s does not exist in the current tree", gen)
+			continue
+		}
+		var bad []string
+		for _, l := range runtimeLits(p) {
+			if l.Decl != fd {
+				continue
+			}
+			ast.Inspect(l.Lit.Body, func(n ast.Node) bool {
+				c, ok := n.(*ast.CallExpr)
+				if !ok {
+					return true
+				}
+				se, ok := c.Fun.(*ast.SelectorExpr)
+				if !ok {
+					return true
+				}
+				if sel, ok := p.TypesInfo.Selections[se]; ok && sel.Kind() == types.MethodVal {
+					fn := sel.Obj().(*types.Func)
+					if fn.Pkg() != nil && fn.Pkg().Path() == "reflect" && (fn.Name() == "Recv" || fn.Name() == "Send") {
+						pos := r.L.Fset.Position(c.Pos())
+						bad = append(bad, fmt.Sprintf("%s (%s:%d)", types.ExprString(c.Fun), shortFile(pos.Filename), pos.Line))
+					}
+				}
+				return true
+			})
+		}
+		r.frameObl("interp."+gen+"/blocking:races-done", "no run-time closure of "+gen+" blocks with a plain Recv/Send (every blocking operation is a reflect.Select that includes f.done)", len(bad) == 0, strings.Join(bad, "; "))
+	}
+}
